@@ -39,13 +39,16 @@ const c11Wait = 5 * time.Second
 
 var c11WaitScale = 1 // raised by C11_WAIT_SCALE for experiments
 
+var c11LockWaitAbsent bool // no call was ever seen waiting in RWMutex.RLock (library changed its locking)
+
 type c11Spec struct {
-	Fam   string   `json:"fam"` // cell | multi | reconn
-	Call  string   `json:"call,omitempty"`
-	Point string   `json:"point,omitempty"`
-	Cause string   `json:"cause,omitempty"`
-	Calls []string `json:"calls,omitempty"` // multi: call@point
-	Phase string   `json:"phase,omitempty"`
+	Fam    string   `json:"fam"` // cell | multi | reconn
+	Call   string   `json:"call,omitempty"`
+	Point  string   `json:"point,omitempty"`
+	Cause  string   `json:"cause,omitempty"`
+	Calls  []string `json:"calls,omitempty"`  // multi: call@point
+	Cancel []int    `json:"cancel,omitempty"` // multi: indices whose context is cancelled before the connection ends
+	Phase  string   `json:"phase,omitempty"`
 }
 
 type c11Res struct {
@@ -593,9 +596,15 @@ func c11EntryCell(sp c11Spec, sc *c11Scope, peer *c11Peer, cli *mqtt.BaseClient,
 	}
 	*cancels = append(*cancels, cancel)
 	ret := c11Go(func() error { return c11Invoke(call, false, cli, rc, ctx) })
-	// observe the call waiting for the lock (if the library stops using an RWMutex this simply times out)
-	inLock := sc.waitSome(func(st string) bool { return c11InRLock(st) && !c11IsReader(st) }, 2*time.Second)
+	// observe the call waiting for the lock (if the library stops using an RWMutex this times out once;
+	// later cells then only yield briefly)
+	lim := 2 * time.Second
+	if c11LockWaitAbsent {
+		lim = 20 * time.Millisecond
+	}
+	inLock := sc.waitSome(func(st string) bool { return c11InRLock(st) && !c11IsReader(st) }, lim)
 	if !inLock {
+		c11LockWaitAbsent = true
 		obs.Note = "call not seen in RWMutex.RLock"
 	}
 	if c11IsCtxCause(cause) {
@@ -659,28 +668,57 @@ func c11RunMulti(sp c11Spec) (obs c11Obs) {
 			obs.Leak = left
 		}
 	}()
-	ctx, cancel := ctxTimeout(wait)
-	_, err := cli.Connect(ctx, "cid")
-	cancel()
+	cctx, ccancel := ctxTimeout(wait)
+	_, err := cli.Connect(cctx, "cid")
+	ccancel()
 	if err != nil {
 		obs.c11Res = c11Res{Res: "other", Detail: "setup: Connect failed: " + err.Error()}
 		return obs
 	}
 	need := map[byte]int{}
-	for _, cp := range sp.Calls {
+	ctxs := make([]context.Context, len(sp.Calls))
+	cancels := make([]context.CancelFunc, len(sp.Calls))
+	defer func() {
+		for _, c := range cancels {
+			c()
+		}
+	}()
+	for i, cp := range sp.Calls {
 		parts := strings.Split(cp, "@")
 		call, w2 := parts[0], parts[1] == "wait2"
 		need[c11ReqType(call, w2)]++
 		if w2 {
 			need[0x30]++
 		}
-		rets = append(rets, c11Go(func() error { return c11Invoke(call, w2, cli, nil, bg) }))
+		ctx, cancel := context.WithCancel(bg)
+		ctxs[i], cancels[i] = ctx, cancel
+		rets = append(rets, c11Go(func() error { return c11Invoke(call, w2, cli, nil, ctx) }))
 	}
 	for t, n := range need {
 		if !peer.waitSeen(t, n, nil, wait) {
 			obs.Note = fmt.Sprintf("only %d of %d packets of type %x seen", peer.count(t), n, t)
 		}
 	}
+	obs.All = make([]c11Res, len(rets))
+	got := make([]bool, len(rets))
+	collect := func(idx []int) {
+		limit := time.After(wait)
+		for _, i := range idx {
+			select {
+			case r := <-rets[i]:
+				obs.All[i] = c11Classify(r, ctxs[i])
+			case <-limit:
+				obs.All[i] = c11Res{Res: "stuck"}
+				limit = time.After(time.Millisecond)
+			}
+			got[i] = true
+		}
+	}
+	// some contexts are cancelled first: exactly those calls return, with their context's error
+	for _, i := range sp.Cancel {
+		cancels[i]()
+	}
+	collect(sp.Cancel)
 	switch sp.Cause {
 	case "localclose":
 		cli.Close()
@@ -695,16 +733,13 @@ func c11RunMulti(sp c11Spec) (obs c11Obs) {
 		peer.ended = true
 		peer.conn.send(c11BadPacket)
 	}
-	limit := time.After(wait)
-	for _, ch := range rets {
-		select {
-		case r := <-ch:
-			obs.All = append(obs.All, c11Classify(r, nil))
-		case <-limit:
-			obs.All = append(obs.All, c11Res{Res: "stuck"})
-			limit = time.After(time.Millisecond)
+	var others []int
+	for i := range rets {
+		if !got[i] {
+			others = append(others, i)
 		}
 	}
+	collect(others)
 	obs.Res = "n/a"
 	c11ObserveEnd(&obs, sc, peer, cli, wait)
 	return obs
@@ -1158,12 +1193,12 @@ func runC11(cfg *runCfg) error {
 		return o, nil
 	}
 	rounds := 1
-	nMulti := 40
+	nMulti := 60
 	switch cfg.tier {
 	case "thorough":
-		rounds, nMulti = 4, 600
+		rounds, nMulti = 20, 6000
 	case "search":
-		rounds, nMulti = 2, 150
+		rounds, nMulti = 2, 200
 	}
 
 	// ---- the matrix, exhaustively, in a seed-dependent order
@@ -1224,6 +1259,13 @@ func runC11(cfg *runCfg) error {
 		for j := 0; j < n; j++ {
 			sp.Calls = append(sp.Calls, kinds[r.Intn(len(kinds))])
 		}
+		if i%3 == 2 {
+			// every third scenario: the contexts of a random non-empty proper subset are cancelled first
+			for _, j := range r.Perm(n)[:1+r.Intn(n-1)] {
+				sp.Cancel = append(sp.Cancel, j)
+			}
+			sort.Ints(sp.Cancel)
+		}
 		if hung >= maxHung {
 			skipped++
 			continue
@@ -1241,9 +1283,13 @@ func runC11(cfg *runCfg) error {
 			rs = append(rs, c11CoqRes(x))
 			dist["multi_"+x.Res]++
 		}
-		multiCases = append(multiCases, cTuple(cListInline(cs), fmt.Sprint(c11CauseCode[sp.Cause]), cListInline(rs),
+		var cn []string
+		for _, j := range sp.Cancel {
+			cn = append(cn, fmt.Sprint(j))
+		}
+		multiCases = append(multiCases, cTuple(cListInline(cs), cListInline(cn), fmt.Sprint(c11CauseCode[sp.Cause]), cListInline(rs),
 			cBool(o.Done), cBool(o.RExit), cBool(len(o.Leak) > 0 || o.AuxStuck != "" || o.Crash != "")))
-		fc := map[string]interface{}{"calls": sp.Calls, "cause": sp.Cause, "observed": o}
+		fc := map[string]interface{}{"calls": sp.Calls, "cancelled_first": sp.Cancel, "cause": sp.Cause, "observed": o}
 		m.Families["multi"] = append(m.Families["multi"], fc)
 		nontrivial++
 		if i < 2 {
@@ -1307,7 +1353,7 @@ func runC11(cfg *runCfg) error {
 	m.Evaluations = len(cellCases) + len(multiCases) + len(rcCases)
 	m.DistinctNontrivial = nontrivial
 	m.Exhaustive = skipped == 0
-	m.Rule = fmt.Sprintf("the whole matrix of Calls.v (%d cells: 9 calls x {waiting for the connect lock, before the write, parked in the 1st select, parked in the 2nd select} x {cancel, deadline, Close, Disconnect, peer close, malformed packet}) executed %d time(s) on a real BaseClient over an in-memory transport whose scripted peer withholds exactly the awaited answer (parked = request seen on the wire); %d scenarios with 2-6 random calls parked on one connection and one connection end; %d scenarios of the reconnecting client (Connect with failing/hanging dials or CONNACK withheld + cancel/deadline; Disconnect in six phases). distinct_nontrivial = scenarios in which a call is really blocked when the cause strikes (everything except the 'before the write' cells)", len(specs), rounds, nMulti, len(rcCases))
+	m.Rule = fmt.Sprintf("the whole matrix of Calls.v (%d cells: 9 calls x {waiting for the connect lock, before the write, parked in the 1st select, parked in the 2nd select} x {cancel, deadline, Close, Disconnect, peer close, malformed packet}) executed %d time(s) on a real BaseClient over an in-memory transport whose scripted peer withholds exactly the awaited answer (parked = request seen on the wire); %d scenarios with 2-6 random calls parked on one connection (in every third one the contexts of a random subset are cancelled first) and one connection end; %d scenarios of the reconnecting client (Connect with failing/hanging dials or CONNACK withheld + cancel/deadline; Disconnect in six phases). distinct_nontrivial = scenarios in which a call is really blocked when the cause strikes (everything except the 'before the write' cells)", len(specs), rounds, nMulti, len(rcCases))
 	if err := cf.write(cfg.outDir); err != nil {
 		return err
 	}
